@@ -195,4 +195,18 @@ CHECKS = {
         rule="execution = (stream, configuration, schedule); states = distinct executions; transitions = environment stimuli applied; non-trivial = the reference fold forwards at least one command",
         parts=[dict(pkg="./redis-shake/dbSync", harness=["dbsync"], test="^TestVerif_C03$", shards=16, gomaxprocs=2, budget=dict(quick=75, thorough=1500))],
     ),
+    "C04": dict(
+        level="fault_enumeration",
+        engine="stimx (synctest + seqx) + crash enumeration",
+        technique="every complete resume-enabled execution (stream x batching configuration x schedule) of the real sender is cut after every command the target received; the real LoadCheckpoint reads each cut state back and a real restart is run from it; all cut points are enumerated",
+        text="For every well-formed stream up to the bound (multi-database, transactions, pings, key-filtered and non-idempotent commands) x sender thresholds x start "
+             "database x schedules with <=1 (2) deviations, the exact command sequence the model target received is (a) parsed into MULTI..EXEC batches: the stored "
+             "offset must be the source offset right after the batch's last command, no batch spans a SELECT, nothing is sent unbatched; (b) cut at EVERY prefix "
+             "(an open MULTI is discarded, as Redis does): the real LoadCheckpoint must return an offset whose source-history prefix reproduces exactly the cut "
+             "dataset, with the sender's run id; (c) a fresh syncer is restarted at that offset and database on the cut state with the source re-served from the "
+             "next byte, and must end with the uninterrupted run's dataset. INCR/RPUSH/APPEND make a repeated command visible, SELECTs a checkpoint in the wrong db.",
+        note="layer 1 only (sender level): offsets are relative to a fixed start offset, i.e. the ACK goroutine's effect on the tagging base is C08's subject; command-granular cuts cover byte-granular ones because Redis executes only complete commands; trusts mredis' MULTI/EXEC discard semantics (A5)",
+        rule="execution = (stream, configuration, schedule); each contributes one case per cut position; non-trivial = executions with more than one cut position (at least one command reached the target)",
+        parts=[dict(pkg="./redis-shake/dbSync", harness=["dbsync"], test="^TestVerif_C04$", shards=16, gomaxprocs=2, budget=dict(quick=75, thorough=1500))],
+    ),
 }
